@@ -140,7 +140,9 @@ def run_jobs(jobs, kind="plain", per_job_timeout=20.0, chunk=12, parallel=6, sta
 # ---------------------------------------------------------------------------------------------
 # generators (every random choice from the rng given)
 # ---------------------------------------------------------------------------------------------
-EQS = ["A -> ", " -> A", "A -> B", "A + B -> C", "2 A -> B", "B -> A + A", "A + B -> ", "C -> B", "B -> C"]
+# no autocatalytic loop (e.g. "B -> A + A" with "A -> B"): exponential growth leaves the recorded size assumption
+# (amounts / Poisson counts below 2^31, DESIGN §4) within a run, and std::poisson_distribution<int> does not return then
+EQS = ["A -> ", " -> A", "A -> B", "A + B -> C", "2 A -> B", "B -> A", "A + B -> ", "C -> B", "B -> C", "C -> A + B"]
 
 
 def gen_system(rng, stochastic, space_kind=None, small=True, static=False, degenerate=False, sub_molecule=False, dt=0.01):
